@@ -749,8 +749,18 @@ def rule_clone_carries_inputs(ctx) -> None:
         if isinstance(x, ast.For) and isinstance(x.iter, (ast.Tuple, ast.List)) and all(const_str(e) for e in x.iter.elts):
             if any(isinstance(y, ast.Call) and dotted(y.func) in ("getattr", "hasattr") and y.args and isinstance(y.args[0], ast.Name) and y.args[0].id == src_p for st in x.body for y in ast.walk(st)):
                 listed |= {const_str(e) for e in x.iter.elts}
-    everything = any(isinstance(x, ast.Call) and dotted(x.func) == "vars" and x.args and isinstance(x.args[0], ast.Name) and x.args[0].id == src_p for x in walk_no_defs(cl.node)) or \
-        any(isinstance(x, ast.Attribute) and x.attr == "__dict__" and isinstance(x.value, ast.Name) and x.value.id == src_p for x in walk_no_defs(cl.node))
+    def _is_vars(e) -> bool:
+        return any((isinstance(y, ast.Call) and dotted(y.func) == "vars" and y.args and isinstance(y.args[0], ast.Name) and y.args[0].id == src_p)
+                   or (isinstance(y, ast.Attribute) and y.attr == "__dict__" and isinstance(y.value, ast.Name) and y.value.id == src_p) for y in ast.walk(e))
+    var_locals = {t.id for x in walk_no_defs(cl.node) if isinstance(x, ast.Assign) and _is_vars(x.value) for t in x.targets if isinstance(t, ast.Name)}
+    # ... and what vars() lists is really copied: a loop over it stores each (name, value) into the mapping the clone is built from
+    everything = False
+    for lp in [x for x in walk_no_defs(cl.node) if isinstance(x, ast.For)]:
+        over = _is_vars(lp.iter) or any(isinstance(y, ast.Name) and y.id in var_locals for y in ast.walk(lp.iter))
+        kv = [y.id for y in ast.walk(lp.target) if isinstance(y, ast.Name)]
+        if over and kv and any(isinstance(st2, ast.Assign) and any(isinstance(t, ast.Subscript) and isinstance(t.slice, ast.Name) and t.slice.id == kv[0] for t in st2.targets)
+                               for st in lp.body for st2 in ast.walk(st)):
+            everything = True
     skip_prefix, skip_names = set(), set()
     if everything:
         for x in walk_no_defs(cl.node):
